@@ -1,10 +1,14 @@
 #!/bin/sh
-# tools/try_seed.sh <seeded name> <property id> [tier]  : apply the seeded patch to /repo, run the check, undo.
+# tools/try_seed.sh <seeded name> <property id> [tier]
+# Runs the check against a scratch worktree of /repo with the seeded patch applied (VERIF_REPO), so /repo itself and
+# any background run are not disturbed.  Equivalent to: git -C /repo apply patch; ./check; git -C /repo checkout -- .
 NAME="$1"; PROP="$2"; TIER="${3:-quick}"
-cd /repo && git diff --quiet || { echo "/repo is dirty"; exit 2; }
-git -C /repo apply "/verif/seeded/$NAME/patch.diff" || exit 2
-cd /verif && timeout 3600 ./check "$PROP" --tier "$TIER" > "/tmp/try_$NAME.log" 2>&1; RC=$?
-git -C /repo checkout -- .
+WT=/tmp/ts_$NAME
+git -C /repo worktree remove --force "$WT" >/dev/null 2>&1
+git -C /repo worktree add -q --detach "$WT" HEAD || exit 2
+git -C "$WT" apply "/verif/seeded/$NAME/patch.diff" || { git -C /repo worktree remove --force "$WT"; echo "patch does not apply"; exit 2; }
+cd /verif && VERIF_REPO="$WT" timeout 3600 ./check "$PROP" --tier "$TIER" > "/tmp/try_$NAME.log" 2>&1; RC=$?
+git -C /repo worktree remove --force "$WT" >/dev/null 2>&1
 echo "$NAME on $PROP/$TIER: exit=$RC  violations=$(grep -c '^VIOLATION' /tmp/try_$NAME.log)"
 grep -A1 '^VIOLATION' "/tmp/try_$NAME.log" | grep -v '^--' | cut -c1-220 | head -6
 grep '^INCONCLUSIVE' "/tmp/try_$NAME.log" | cut -c1-220 | head -3
